@@ -120,8 +120,20 @@ def run(tier):
                     ok = np.allclose(want, gb["tt"], rtol=1e-9, atol=1e-9 * float(np.max(want)))
                 if not ok:
                     dev = float(np.max(np.abs(want - gb["tt"])) / np.max(np.abs(want)))
+                    # diagnosis: does the deviation disappear when the sentinel `Big` is scaled with the times?  (interpreter
+                    # mode, where the module constant can be replaced; see known finding C05-big-sentinel)
+                    big = None
+                    try:
+                        strip = lambda t_: {kk: vv for kk, vv in t_.items() if kk not in ("points", "ray_points", "ray_kw")}
+                        dreq = [strip(reqs[3 * k]), dict(strip(reqs[3 * k + (1 if name == "slowness" else 2)]), big=1.0e5 * c)]
+                        d0, d1 = C.run_impl(dreq, "interp", timeout=600)
+                        if d0["status"] == "ok" and d1["status"] == "ok":
+                            w2 = c * d0["grids"][0]["tt"]
+                            big = bool(np.allclose(w2, d1["grids"][0]["tt"], rtol=1e-12, atol=0))
+                    except Exception:  # noqa: BLE001
+                        big = None
                     ck.violation(f"traveltimes do not scale with the {name} unit",
-                                 dict(pl, scaling=name, rel_dev=dev, scaled_tmax=float(np.max(want))))
+                                 dict(pl, scaling=name, rel_dev=dev, scaled_tmax=float(np.max(want)), vanishes_with_scaled_big=big))
                     continue
                 if name == "slowness" and not np.isclose(gb["vzero"], c * ga["vzero"], rtol=1e-12):
                     ck.violation("vzero does not scale with the slowness unit", dict(pl, scaling=name))
